@@ -92,6 +92,13 @@ impl<T> Receiver<T> {
     #[verifier::external_body]
     pub async fn recv(&mut self) -> (r: Option<T>) { unimplemented!() }
 }
+/// the batch of deletion records was handed to the database service and accepted: facts only these two contracts establish
+pub uninterp spec fn edge_dels_handed(batch: Seq<EdgeDeletionEntry>) -> bool;
+pub uninterp spec fn node_dels_handed(batch: Seq<NodeDeletionEntry>) -> bool;
+pub uninterp spec fn refs_handed(room_id: Uid, batch: Seq<Edge>) -> bool;
+pub open spec fn all_ref_batches_handed(b: Seq<(Uid, Seq<Edge>)>) -> bool { forall|i: int| 0 <= i < b.len() ==> refs_handed((#[trigger] b[i]).0, b[i].1) }
+pub open spec fn all_edge_batches_handed(b: Seq<Seq<EdgeDeletionEntry>>) -> bool { forall|i: int| 0 <= i < b.len() ==> edge_dels_handed(#[trigger] b[i]) }
+pub open spec fn all_node_batches_handed(b: Seq<Seq<NodeDeletionEntry>>) -> bool { forall|i: int| 0 <= i < b.len() ==> node_dels_handed(#[trigger] b[i]) }
 /// the ingestion entry points of the database service: what they REQUIRE is the property's "stored only if it carries a valid
 /// signature" seen from the caller's side
 pub struct GraphDatabaseService { x: u8 }
@@ -105,14 +112,17 @@ impl GraphDatabaseService {
     #[verifier::external_body]
     pub async fn add_edges(&self, room_id: Uid, edges: Vec<Edge>) -> (r: std::result::Result<Vec<Uid>, DbError>)
         requires all_edges_ok(edges@)
+        ensures r is Ok ==> refs_handed(room_id, edges@)
     { unimplemented!() }
     #[verifier::external_body]
     pub async fn delete_edges(&self, edges: Vec<EdgeDeletionEntry>) -> (r: std::result::Result<(), DbError>)
         requires all_edge_dels_ok(edges@)
+        ensures r is Ok ==> edge_dels_handed(edges@)
     { unimplemented!() }
     #[verifier::external_body]
     pub async fn delete_nodes(&self, nodes: Vec<NodeDeletionEntry>) -> (r: std::result::Result<(), DbError>)
         requires all_node_dels_ok(nodes@)
+        ensures r is Ok ==> node_dels_handed(nodes@)
     { unimplemented!() }
     #[verifier::external_body]
     pub async fn add_room_node(&self, room: RoomNode) -> (r: std::result::Result<(), DbError>)
@@ -180,10 +190,14 @@ pub fn cut_collect_ids(remote_nodes: &mut HashSet<NodeIdentifier>, nodes: HashSe
             invariant
                 // [whatever_was_ingested_so_far_is_a_change]{C18}
                 ingested ==> has_changes,
+                // [received_reference_deletions_are_handed_to_the_database]{C11} every non-empty batch of reference deletion records that came out of the signature check was handed to the database service, and accepted by it, before the next batch is read: a deletion that reached this peer is not dropped on the way to its log
+                all_edge_batches_handed(edge_batches),
 //@ loop "while let Some(node_deletion) = node_deletion_recv.recv().await"
             invariant
                 // [whatever_was_ingested_so_far_is_a_change]{C18}
                 ingested ==> has_changes,
+                // [received_row_deletions_are_handed_to_the_database]{C11} every non-empty batch of row deletion records that came out of the signature check was handed to the database service, and accepted by it, before the next batch is read
+                all_node_batches_handed(node_batches),
 //@ loop "while let Some(nodes) = remote_nodes_receiv.recv().await"
             invariant
                 // [whatever_was_ingested_so_far_is_a_change]{C18}
@@ -192,24 +206,40 @@ pub fn cut_collect_ids(remote_nodes: &mut HashSet<NodeIdentifier>, nodes: HashSe
             invariant
                 // [whatever_was_ingested_so_far_is_a_change]{C18}
                 ingested ==> has_changes,
+                all_ref_batches_handed(ref_batches),
 //@ loop "while let Some(nodes) = result_recv.recv().await" #1
             invariant
                 // [whatever_was_ingested_so_far_is_a_change]{C18}
                 ingested ==> has_changes,
+                all_ref_batches_handed(ref_batches),
 //@ loop "while let Some(nodes) = result_recv.recv().await" #2
             invariant
                 // [whatever_was_ingested_so_far_is_a_change]{C18}
                 ingested ==> has_changes,
+                all_ref_batches_handed(ref_batches),
 //@ loop "while let Some(edges) = result_recv.recv().await" #1
             invariant
                 // [whatever_was_ingested_so_far_is_a_change]{C18}
                 ingested ==> has_changes,
+                // [fetched_references_are_handed_to_the_database]{C03} every batch of references fetched for the announced rows that came out of the signature check was handed to the database service and accepted by it before the next one is read
+                all_ref_batches_handed(ref_batches),
 //@ loop "while let Some(edges) = result_recv.recv().await" #2
             invariant
                 // [whatever_was_ingested_so_far_is_a_change]{C18}
                 ingested ==> has_changes,
+                // [fetched_references_are_handed_to_the_database]{C03} every batch of references fetched for the announced rows that came out of the signature check was handed to the database service and accepted by it before the next one is read
+                all_ref_batches_handed(ref_batches),
 //@ insert body-start
         let ghost mut ingested: bool = false;
+        let ghost mut edge_batches: Seq<Seq<EdgeDeletionEntry>> = Seq::empty();
+        let ghost mut node_batches: Seq<Seq<NodeDeletionEntry>> = Seq::empty();
+        let ghost mut ref_batches: Seq<(Uid, Seq<Edge>)> = Seq::empty();
+//@ insert-each after-stmt ".verify_edges(edges)"
+                    proof { ref_batches = ref_batches.push((room_id, edges@)); }
+//@ insert after-stmt ".verify_edge_log(edge_deletion)"
+                proof { edge_batches = edge_batches.push(edge_deletion@); }
+//@ insert after-stmt ".verify_node_log(node_deletion)"
+                proof { node_batches = node_batches.push(node_deletion@); }
 //@ insert-each after-stmt ".delete_edges(edge_deletion)" optional
                 proof { ingested = true; }
 //@ insert-each after-stmt ".delete_nodes(node_deletion)" optional
